@@ -252,9 +252,25 @@ def checkpoint_typestate(ctx: Ctx, rule: str, f: Func, effects=(), undos=(), reg
     REG   registration of a waiter (needs UNDO if the wait is interrupted, no CHK needed before)
     UNDO  release / deregistration
     errors: EFFECT before CHK; normal return without YIELD; exit by cancellation after EFFECT/REG without UNDO."""
-    # equivalent spellings of a deregistration
+    # what is deregistered is what was registered: a metavariable shared by a registration and an undo pattern ($I, $E, ...) is bound
+    # by the registration site of this function (`q.append(item)` ... `q.remove(item)`, not `q.remove(something_else)`)
     import re as _re0
     undos = list(undos)
+    binds: dict[str, set] = {}
+    for rp in regs:
+        for _site, env_ in ctx.sites(f, rp, env):
+            for k_, v_ in env_.items():
+                if isinstance(v_, ast.AST):
+                    binds.setdefault(k_, set()).add(ast.unparse(v_))
+    def _inst(pat):
+        for k_, vs_ in binds.items():
+            if len(vs_) == 1 and _re0.search(r"\$" + k_ + r"\b", pat):
+                v_ = next(iter(vs_))
+                if "$" not in v_:
+                    rep_ = v_ if _re0.fullmatch(r"[A-Za-z_][\w.]*", v_) else "(" + v_ + ")"
+                    pat = _re0.sub(r"\$" + k_ + r"\b", lambda m_, r_=rep_: r_, pat)
+        return pat
+    undos = [_inst(u_) for u_ in undos]
     for pat in list(undos):
         m = _re0.match(r"^([A-Za-z_][\w.]*)\.pop\((.+), None\)$", pat)
         if m:
